@@ -199,7 +199,9 @@ type ViewB struct {
 
 type fnError struct{ serial int }
 
-func (e *fnError) Error() string { return fmt.Sprintf("decode function failed (invocation %d)", e.serial) }
+func (e *fnError) Error() string {
+	return fmt.Sprintf("decode function failed (invocation %d)", e.serial)
+}
 
 // ---------------------------------------------------------------------------
 // one run
@@ -216,7 +218,9 @@ type genKey struct {
 	gen int
 }
 
-func (g genKey) String() string { return fmt.Sprintf("close of the pending decode #%d of %v", g.gen, g.k) }
+func (g genKey) String() string {
+	return fmt.Sprintf("close of the pending decode #%d of %v", g.gen, g.k)
+}
 
 type invocation struct {
 	w, op, depth int
@@ -330,10 +334,10 @@ func (r *run) leave(w int) {
 // lockPoints are the yield points directly in front of an operation on the
 // extractor's shared state: x.mu.Lock() in all five cases.
 var lockPoints = map[string]bool{
-	"Decode:get":            true,
-	"cacheStoreOrLoad:lock": true,
-	"StoreOrLoadPair:lock":  true,
-	"DecodeExclusive:lock":  true,
+	"Decode:get":             true,
+	"cacheStoreOrLoad:lock":  true,
+	"StoreOrLoadPair:lock":   true,
+	"DecodeExclusive:lock":   true,
 	"DecodeExclusive:relock": true,
 }
 
@@ -632,7 +636,7 @@ func checkCase(c *Case) error {
 
 	if res.Stuck {
 		c.out.stuck = true
-		return fmt.Errorf("run stuck: worker %d did not come back from %s\n%s", res.StuckWorker, res.StuckPoint, res.Dump)
+		return fmt.Errorf("run stuck: worker %d did not come back from %s (goroutine state %q)\n%s", res.StuckWorker, res.StuckPoint, res.StuckState, res.Dump)
 	}
 	where := func() string { return fmt.Sprintf(" [program %q, schedule %v]", p.ID(), res.Picks()) }
 	if len(r.proto) > 0 {
